@@ -309,6 +309,7 @@ def run(chk):
                        'SecondPass = rainflow of the periodic reversal sequence; every sequence is replayed into FKMNonlinearDetector (exact linear law) and the '
                        'recorder content is judged by the same definition-level predicate (every third sequence also in a second load unit, factor 2^-30). Non-trivial = periodic sequence closes >= 2 hystereses. '
                        'Recorded longer sequences and their non-reversal refinements are validated by Trace_HCM.tla (model conformance + C04 on the logged rows).')
+    chk.cov['rule'] += ' Also: strictly alternating sequences over -3..3 with up to 8 (9) samples (TLC on all, a fixed sample replayed), every third sequence in a second load unit (2^-30), every fifth as two proportional points with load steps labelled in descending order; sequences are handed over in arrays that are overwritten after each call.'
     chk.cov['exhaustive'] = True
     chk.assumptions += ['integer loads (and the same loads times 2^-30): the 1e-12 comparison tolerances of the code do not act', 'injected exact linear law object (the detector accepts any law object)',
                         'single assessment point (multi-point decisions are covered by C05)']
